@@ -55,6 +55,29 @@ func c14Stamp(tag byte, n int) []byte {
 	return b
 }
 
+// c14Dressed is c14Stamp in another dress: "binary" sets the high bit of
+// every digit (no valid UTF-8 anywhere), "utf8" is the tag followed by
+// two-byte characters (so that every even offset lies inside one).
+func c14Dressed(tag byte, n int, dress string) []byte {
+	b := c14Stamp(tag, n)
+	switch dress {
+	case "binary":
+		for i := range b {
+			if b[i] >= '0' && b[i] <= '9' {
+				b[i] |= 0x80
+			}
+		}
+	case "utf8":
+		for i := 1; i < n; i++ {
+			b[i] = []byte{0xa9, 0xc3}[i%2]
+		}
+		if n > 1 && 0 == n%2 {
+			b[n-1] = '\n'
+		}
+	}
+	return b
+}
+
 func pow10(k int) int {
 	n := 1
 	for ; k > 0; k-- {
@@ -67,6 +90,10 @@ func pow10(k int) int {
 func c14Child(args []string) int {
 	n, _ := strconv.Atoi(args[0])
 	st, _ := strconv.Atoi(args[2])
+	dress := ""
+	if len(args) > 4 {
+		dress = args[4]
+	}
 	if "echo" == args[3] {
 		io.Copy(os.Stdout, os.Stdin)
 	}
@@ -79,9 +106,9 @@ func c14Child(args []string) int {
 	}
 	switch args[1] {
 	case "stdout":
-		os.Stdout.Write(c14Stamp('O', n))
+		os.Stdout.Write(c14Dressed('O', n, dress))
 	case "stderr":
-		os.Stderr.Write(c14Stamp('E', n))
+		os.Stderr.Write(c14Dressed('E', n, dress))
 	case "both":
 		/* Alternate in 4 KiB pieces; per-stream order is what counts. */
 		o, e := c14Stamp('O', n), c14Stamp('E', n)
@@ -104,6 +131,10 @@ type c14Case struct {
 	Pause  int    `json:"pause_ms_before_draining"`
 	Input  string `json:"input"` /* empty | echo:<bytes> | open */
 	Status int    `json:"exit_status"`
+	/* Dress: see c14Dressed (single streams only).  Locale: the LC_ALL of
+	the process that runs the shell. */
+	Dress  string `json:"dress,omitempty"`
+	Locale string `json:"locale,omitempty"`
 }
 
 // childState reports where the child is: "gone", "zombie", "blocked"
@@ -150,7 +181,7 @@ func c14Run(c c14Case) (sig, what string) {
 		k, _ := strconv.Atoi(strings.TrimPrefix(c.Input, "echo:"))
 		input = c14Stamp('I', k)
 	}
-	cmd := exec.Command(self, "worker", "c14child", strconv.Itoa(c.N), c.FD, strconv.Itoa(c.Status), echo)
+	cmd := exec.Command(self, "worker", "c14child", strconv.Itoa(c.N), c.FD, strconv.Itoa(c.Status), echo, c.Dress)
 	sh, err := simpleshell.NewCmdShell(cmd)
 	if nil != err {
 		return "new-cmdshell", err.Error()
@@ -240,9 +271,9 @@ func c14Run(c c14Case) (sig, what string) {
 	}
 	switch c.FD {
 	case "stdout":
-		want['O'] = c14Stamp('O', c.N)
+		want['O'] = c14Dressed('O', c.N, c.Dress)
 	case "stderr":
-		want['E'] = c14Stamp('E', c.N)
+		want['E'] = c14Dressed('E', c.N, c.Dress)
 	case "both":
 		want['O'], want['E'] = c14Stamp('O', c.N), c14Stamp('E', c.N)
 	}
@@ -377,6 +408,45 @@ func c14(r *ev.Result, tier string) {
 			r.Violate(ev.Violation{Signature: sig + "/" + c.FD + "/" + cls, What: fmt.Sprintf("%+v: %s", c, what), Kind: "c14", Replay: c})
 		}
 	})
+	/* Output that is not text, or text whose characters straddle every read
+	boundary; and the same with the operator's locale saying UTF-8: the
+	bytes are the command's, not the shell's to interpret. */
+	var dressed []c14Case
+	for _, n := range []int{8, 4099, 32776, 200001} {
+		for _, fd := range []string{"stdout", "stderr"} {
+			for _, dress := range []string{"binary", "utf8"} {
+				dressed = append(dressed, c14Case{N: n, FD: fd, ReadR: 0, Input: "empty", Status: 0, Dress: dress})
+				dressed = append(dressed, c14Case{N: n, FD: fd, ReadR: 8, Input: "open", Status: 3, Dress: dress})
+			}
+		}
+	}
+	for _, loc := range []string{"", "en_US.UTF-8", "C.UTF-8"} {
+		old, had := os.LookupEnv("LC_ALL")
+		if "" != loc {
+			os.Setenv("LC_ALL", loc)
+		}
+		parallel(len(dressed), func(i int) {
+			c := dressed[i]
+			c.Locale = loc
+			sig, what := c14Run(c)
+			mu.Lock()
+			r.Evaluations++
+			r.Distinct++
+			mu.Unlock()
+			if "" != sig {
+				if "" != loc {
+					sig += "/LC_ALL=" + loc
+				}
+				r.Violate(ev.Violation{Signature: sig + "/" + c.FD + "/" + c.Dress, What: fmt.Sprintf("%+v: %s", c, what), Kind: "c14", Replay: c})
+			}
+		})
+		if had {
+			os.Setenv("LC_ALL", old)
+		} else {
+			os.Unsetenv("LC_ALL")
+		}
+	}
+	r.Set("dressed_cases_per_locale", len(dressed))
 	r.Sample(4, cases[len(cases)/2])
 	r.Sample(4, cases[len(cases)-1])
 	r.Sample(4, c14Case{N: 65544, FD: "stdout", ReadR: 8, Input: "empty", Status: 0})
@@ -394,6 +464,9 @@ func c14Replay(kind string, raw json.RawMessage) int {
 	var c c14Case
 	if err := json.Unmarshal(raw, &c); nil != err {
 		return 2
+	}
+	if "" != c.Locale {
+		os.Setenv("LC_ALL", c.Locale)
 	}
 	for i := 0; i < 5; i++ {
 		sig, what := c14Run(c)
